@@ -37,6 +37,8 @@ pub enum Shape {
     DeleteLink { row: u16, target: u16 },
     /// direct mutation / deletion of an authorisation row outside a room mutation
     SysDirect { kind: u8 },
+    /// a row whose serialised size is close to the configured maximum (1 KiB in this world)
+    CreateBig { room: u8, len: u16 },
 }
 
 #[derive(Clone, Debug, Serialize, Deserialize, PartialEq)]
@@ -77,6 +79,7 @@ pub fn shape_strategy() -> impl Strategy<Value = Shape> {
         3 => row.prop_map(|row| Shape::DeleteNode { row }),
         2 => (row, any::<u16>()).prop_map(|(row, target)| Shape::DeleteLink { row, target }),
         1 => (0u8..8).prop_map(|kind| Shape::SysDirect { kind }),
+        1 => (0u8..3, 780u16..860).prop_map(|(room, len)| Shape::CreateBig { room, len }),
     ]
 }
 pub fn rop_strategy(idents: u8) -> impl Strategy<Value = ROp> {
@@ -143,7 +146,12 @@ pub struct RightsWorld {
     pub peers: Vec<Peer>,
     pub rooms: Vec<RoomInfo>,
     pub rows: Vec<RRow>,
+    /// only Items are created (avoids C03's known two-entity finding when a mirror pulls)
+    pub single_entity: bool,
 }
+
+/// maximum row size of the instances of this world, in bytes
+pub const MAX_ROW_BYTES: u64 = 1024;
 
 fn group_text(spec: &GroupSpec, keys: &[String], p: &mut Parameters, prefix: &str) -> String {
     let mut s = String::from("{ name:\"g\" ");
@@ -181,10 +189,11 @@ fn group_text(spec: &GroupSpec, keys: &[String], p: &mut Parameters, prefix: &st
 impl RightsWorld {
     pub async fn start(n: usize, dir: &std::path::Path) -> Result<RightsWorld, String> {
         let mut peers = vec![];
+        let cfg = discret::Configuration { max_object_size_in_kb: 1, ..config() };
         for i in 0..n {
-            peers.push(Peer::start(&format!("id{}", i), MODEL, dir.join(format!("p{}", i))).await?);
+            peers.push(Peer::start_with(&format!("id{}", i), MODEL, dir.join(format!("p{}", i)), &cfg).await?);
         }
-        Ok(RightsWorld { peers, rooms: vec![], rows: vec![] })
+        Ok(RightsWorld { peers, rooms: vec![], rows: vec![], single_entity: false })
     }
     pub fn keys(&self) -> Vec<String> {
         self.peers.iter().map(|p| p.key64()).collect()
@@ -401,9 +410,20 @@ impl RightsWorld {
         let mut is_delete = false;
         let q: String;
         match shape {
+            Shape::CreateBig { room, len } => {
+                let Some(r) = self.room(*room) else { return step };
+                step.kind = "create-near-size-limit".into();
+                let (ok, why) = self.can(by, &Some(r.id64.clone()), "app.Item", Need::Own).await;
+                // the size verdict is not predicted (it is compared between the two paths by C12)
+                step.entitled = if ok { None } else { Some(false) };
+                step.why = why;
+                p.add("room", r.id64.clone()).unwrap();
+                p.add("t", "x".repeat(*len as usize)).unwrap();
+                q = "mutate { app.Item { room_id:$room name:$t } }".into();
+            }
             Shape::Create { room, entity } => {
                 let Some(r) = self.room(*room) else { return step };
-                let e = (*entity % 2) as usize;
+                let e = if self.single_entity { 0 } else { (*entity % 2) as usize };
                 step.kind = "create".into();
                 let (ok, why) = self.can(by, &Some(r.id64.clone()), ENTITIES[e], Need::Own).await;
                 step.entitled = Some(ok);
@@ -615,7 +635,7 @@ impl RightsWorld {
                 Ok(js) => {
                     if let Ok(v) = serde_json::from_str::<serde_json::Value>(&js) {
                         for (ei, en) in ENTITIES.iter().enumerate() {
-                            if matches!(shape, Shape::Create { .. } | Shape::CreateNested { .. }) {
+                            if matches!(shape, Shape::Create { .. } | Shape::CreateNested { .. } | Shape::CreateBig { .. }) {
                                 if let Some(id) = v[*en]["id"].as_str() {
                                     self.rows.push(RRow { id: id.to_string(), entity: ei as u8 });
                                 }
